@@ -1241,7 +1241,7 @@ func TestEngine(t *testing.T) {
 		return
 	}
 	g := &gen{r: hx.Rand(16)}
-	for id := range hx.Cases(8000, 200000) {
+	for id := range hx.Cases(30000, 600000) {
 		runCase(tr, id, g, do)
 	}
 }
